@@ -14,6 +14,7 @@ package tensor
 //@ func tensor.FlatIterator.ndNext
 //@   props C05
 //@   mode rank it.shape, it.strides, it.track
+//@   config maxrank_thorough 4
 //@   let n = len(it.shape)
 //@   requires [rank] n >= 1
 //@   requires [inv] itInv(it)
@@ -28,6 +29,7 @@ package tensor
 //@ func tensor.FlatIterator.ndPrevious
 //@   props C05
 //@   mode rank it.shape, it.strides, it.track
+//@   config maxrank_thorough 4
 //@   let n = len(it.shape)
 //@   requires [rank] n >= 1
 //@   requires [inv] itInv(it)
@@ -41,6 +43,7 @@ package tensor
 //@ func tensor.FlatIterator.colMajorNDNext
 //@   props C05 C16
 //@   mode rank it.shape, it.strides, it.track
+//@   config maxrank_thorough 4
 //@   let n = len(it.shape)
 //@   requires [rank] n >= 1
 //@   requires [inv] itInv(it)
